@@ -26,11 +26,11 @@ Fixpoint fut (t : tid) (p : list instr) (b : list pid) (d : Z) (pe : list pid) :
 Fixpoint nss (p : list instr) : bool :=
   match p with
   | [] => true
-  | IStart :: _ | IStop :: _ => false
+  | IStart :: _ | IStop :: _ | IStopA _ :: _ | ILoop :: _ | ICheckDone :: _ => false
   | _ :: r => nss r
   end.
 Fixpoint no_ss (ops : list op) : bool :=
-  match ops with [] => true | Start :: _ | Stop :: _ => false | _ :: r => no_ss r end.
+  match ops with [] => true | Start :: _ | Stop :: _ | StopAuto _ :: _ | RefreshLoop :: _ => false | _ :: r => no_ss r end.
 
 Lemma strip_app a b : strip (a ++ b) = strip a ++ strip b.
 Proof. induction a as [|x a IH]; simpl; auto. destruct x; simpl; rewrite ?IH; auto. Qed.
@@ -102,6 +102,8 @@ Proof.
   - inversion He; subst; auto.
   - destruct (hooks s); inversion He; subst; auto.
   - inversion He; subst; auto.
+  - inversion He; subst; auto.
+  - destruct (existsb (Nat.eqb t0) (fin s)); inversion He; subst; auto.
 Qed.
 
 Lemma step_local_fut rep st t st' u :
@@ -215,6 +217,12 @@ Proof.
   - destruct (started s); inversion He; subst; clear He; cbn; rewrite skipn_all;
       (split; [destruct (Nat.eqb t u); rewrite ?app_nil_r; reflexivity | exists []; rewrite app_nil_r; reflexivity]).
   - destruct (hooks s); inversion He; subst; clear He; cbn; rewrite skipn_all;
+      (split; [destruct (Nat.eqb t u); rewrite ?app_nil_r; reflexivity | exists []; rewrite app_nil_r; reflexivity]).
+  - destruct (existsb (Nat.eqb t0) (fin s)); inversion He; subst; clear He; cbn; rewrite skipn_all;
+      (split; [destruct (Nat.eqb t u); rewrite ?app_nil_r; reflexivity | exists []; rewrite app_nil_r; reflexivity]).
+  - destruct (done s); inversion He; subst; clear He; cbn; rewrite skipn_all;
+      (split; [destruct (Nat.eqb t u); rewrite ?app_nil_r; reflexivity | exists []; rewrite app_nil_r; reflexivity]).
+  - destruct (done s); inversion He; subst; clear He; cbn; rewrite skipn_all;
       (split; [destruct (Nat.eqb t u); rewrite ?app_nil_r; reflexivity | exists []; rewrite app_nil_r; reflexivity]).
 Qed.
 
